@@ -127,6 +127,12 @@ class Program:
             extra.append((reg[0], ['amq_protocol', 'frame']))
         self.types = TypeTables(os.path.join(src_root, 'src'), extra)
         self._src_cache = {}
+        self.ext_consts = {}
+        if proto_rs:
+            tymap = {'ShortShortUInt': 'u8', 'ShortUInt': 'u16', 'LongUInt': 'u32', 'LongLongUInt': 'u64', 'u8': 'u8', 'u16': 'u16', 'u32': 'u32', 'u64': 'u64'}
+            for m in re.finditer(r'pub const (\w+): (\w+) = (\d+);', open(proto_rs).read()):
+                if m.group(2) in tymap:
+                    self.ext_consts[m.group(1)] = (tymap[m.group(2)], int(m.group(3)))
         self.meta = {}   # id(func) -> dict
         self.index = {}  # last name -> [func]
         self.closures = {}  # closure location string -> func
